@@ -20,15 +20,27 @@ fn run(ctx: &RunCtx) -> Report {
     let mut report = Report::default();
     let mut rng = Rng::new(ctx.seed);
     let net_cfg = NetCfg {
-        latency_min_us: 500,
+        // 1 run in 6: slow links, round trips above the initial 500 ms request timeout
+        latency_min_us: if rng.chance(1, 6) { rng.range(260_000, 330_000) } else { 500 },
         latency_max_us: rng.range(2_000, 150_000),
         ..NetCfg::default()
     };
+    let mut net_cfg = net_cfg;
+    if net_cfg.latency_min_us > net_cfg.latency_max_us {
+        net_cfg.latency_max_us = net_cfg.latency_min_us + 60_000;
+    }
+    let slow_links = net_cfg.latency_min_us > 250_000;
     let sim = Sim::new(ctx.seed, net_cfg);
     sim.set_snap_mode(SnapMode::OnConsume);
     sim.set_snap_every(4);
     let mut plan = random_plan(&mut rng, 16, 4);
     plan.servers = rng.usize(3, 16);
+    // 1 run in 8: enough servers for full buckets (one virtual hour only, to bound the cost)
+    let big = rng.chance(1, 8);
+    if big {
+        plan.servers = rng.usize(42, 60);
+        plan.clients = 0;
+    }
     plan.dead_bootstrap = 0;
     plan.join = Join::Staggered(rng.range(1, 120) * SEC);
     // (d) how long each node's main table has been empty; and the largest request timeout seen
@@ -58,10 +70,17 @@ fn run(ctx: &RunCtx) -> Report {
     }
     let net = build(&sim, &mut rng, &plan);
     let all = net.all();
-    let hours = match ctx.tier {
-        Tier::Quick => rng.range(1, 3),
-        Tier::Thorough => rng.range(2, 6),
+    let hours = if big {
+        1
+    } else {
+        match ctx.tier {
+            Tier::Quick => rng.range(1, 3),
+            Tier::Thorough => rng.range(2, 6),
+        }
     };
+    if big {
+        report.probe("big_network_runs", 1);
+    }
     let t0 = sim.now();
     let t_end = t0 + hours * 3600 * SEC;
 
@@ -182,8 +201,13 @@ fn run(ctx: &RunCtx) -> Report {
     let mut current_id: BTreeMap<HostId, Id> = BTreeMap::new();
     let mut restarted_at: BTreeMap<HostId, u64> = BTreeMap::new();
     let mut relearned: BTreeSet<HostId> = BTreeSet::new();
+    let mut rekeyed_at: BTreeMap<HostId, u64> = BTreeMap::new();
+    let mut first_seen: BTreeMap<HostId, u64> = BTreeMap::new();
+    // sizes of a node's buckets over time: (host, bucket) -> [(t, entries)]
+    let mut bucket_hist: BTreeMap<(HostId, u8), Vec<(u64, usize, BTreeSet<SocketAddrV4>)>> = BTreeMap::new();
     let mut answered_within_window_checks = 0u64;
     let mut ip_limited = 0u64;
+    let mut capacity_limited = 0u64;
     // last id seen in a node's tables for an address
     let mut slot_hist: BTreeMap<(HostId, std::net::Ipv4Addr), Vec<(u64, BTreeSet<Id>)>> = BTreeMap::new();
     let mut t = sim.now();
@@ -206,6 +230,7 @@ fn run(ctx: &RunCtx) -> Report {
                     if let Some(prev) = current_id.insert(*h, s.id) {
                         if prev != s.id {
                             old_ids.entry(*h).or_default().push((prev, t));
+                            rekeyed_at.insert(*h, t);
                         }
                     }
                 }
@@ -248,7 +273,7 @@ fn run(ctx: &RunCtx) -> Report {
             for x in &all {
                 if sim.node_addr(*x).to_string() == dx {
                     if let Some(s) = sim.snapshot(*x) {
-                        println!("t={}s own id {} inc {} alive {}", t / SEC, hex8(&s.id), sim.incarnation(*x), sim.alive(*x));
+                        println!("t={}s own id {} inc {} alive {} table {} timeout {}ms inflight {} queries {}", t / SEC, hex8(&s.id), sim.incarnation(*x), sim.alive(*x), s.routing_table.size, s.socket.request_timeout_ns / MS, s.socket.inflight.len(), s.iterative_queries.len());
                         for (tn, tb) in [("main", &s.routing_table), ("signed", &s.signed_peers_routing_table)] {
                             for (k, b) in &tb.buckets {
                                 for n in b {
@@ -274,12 +299,14 @@ fn run(ctx: &RunCtx) -> Report {
                 continue;
             }
             let Some(s) = sim.snapshot(*x) else { continue };
+            // a node may re-key right after its start, before it was first observed here
+            let seen_since = *first_seen.entry(*x).or_insert(t);
             let skew = 1.0 + sim.node_spec(*x).clock_ppm.unsigned_abs() as f64 / 1e6 + 0.01;
             let main: BTreeMap<SocketAddrV4, Id> = s.routing_table.buckets.iter().flat_map(|(_, b)| b.iter().map(|n| (n.address, n.id))).collect();
             let signed: BTreeMap<SocketAddrV4, Id> = s.signed_peers_routing_table.buckets.iter().flat_map(|(_, b)| b.iter().map(|n| (n.address, n.id))).collect();
             // (a) a peer that answered within the last 15 minutes is still there
             for ((xx, paddr), (at, pid)) in last_answer.iter() {
-                if xx != x || *at < born[x] {
+                if xx != x || *at < born[x] || *at < seen_since + 30 * SEC {
                     continue;
                 }
                 let age = t - at;
@@ -307,6 +334,16 @@ fn run(ctx: &RunCtx) -> Report {
                 let d = crate::krpc::distance(&s.id, pid);
                 let bucket_len = s.routing_table.buckets.iter().find(|(k, _)| *k == d).map(|(_, b)| b.len()).unwrap_or(0);
                 if bucket_len >= 20 {
+                    continue;
+                }
+                // capacity: the peer's bucket was full around the time it answered
+                // (and the peer was not one of its members: a member of a full bucket is refreshed)
+                if bucket_hist.get(&(*x, d)).map(|h| h.iter().any(|(ht, n, members)| *ht + 60 * SEC >= *at && *ht <= *at + 60 * SEC && *n >= 20 && !members.contains(paddr))).unwrap_or(false) {
+                    capacity_limited += 1;
+                    continue;
+                }
+                // the node re-keyed after the answer (its table was rebuilt under a new id)
+                if rekeyed_at.get(x).map(|r| *r + 30 * SEC >= *at).unwrap_or(false) {
                     continue;
                 }
                 if ctx.verbose {
@@ -337,6 +374,14 @@ fn run(ctx: &RunCtx) -> Report {
                     ),
                 );
                 break 'outer;
+            }
+            for (k, b) in &s.routing_table.buckets {
+                let h = bucket_hist.entry((*x, *k)).or_default();
+                let members: BTreeSet<SocketAddrV4> = if b.len() >= 20 { b.iter().map(|n| n.address).collect() } else { BTreeSet::new() };
+                h.push((t, b.len(), members));
+                if h.len() > 40 {
+                    h.remove(0);
+                }
             }
             let mut now_held: BTreeMap<std::net::Ipv4Addr, BTreeSet<Id>> = BTreeMap::new();
             for tb in [&s.routing_table, &s.signed_peers_routing_table] {
@@ -397,7 +442,9 @@ fn run(ctx: &RunCtx) -> Report {
             }
         }
         // (d) empty tables
-        let limit = *tau.borrow() + 2 * SEC + SEC;
+        // with round trips above the initial timeout the adaptive timeout needs some failed attempts
+        // to converge (only late replies feed the estimator)
+        let limit = if slow_links { 90 * SEC } else { *tau.borrow() + 2 * SEC + SEC };
         for (h, (dur, at)) in worst_empty.borrow().iter() {
             if *dur > limit {
                 report.violate(
@@ -420,7 +467,11 @@ fn run(ctx: &RunCtx) -> Report {
     }
     report.probe("answered_within_window_checks", answered_within_window_checks);
     report.probe("virtual_hours", hours);
+    if slow_links {
+        report.probe("slow_link_runs", 1);
+    }
     report.probe("exempt_ip_slot_held_by_other_id", ip_limited);
+    report.probe("exempt_bucket_full_at_answer_time", capacity_limited);
     report.probe("crashes_planned", crash_times.len() as u64);
     report.probe("restarts_relearned", relearned.len() as u64);
     report.nontrivial = answered_within_window_checks > 0;
